@@ -208,7 +208,7 @@ EXTRA = {
     "C17": " Literals have up to 5 decimals, near-identical twin sub-expressions are planted, one own variable is called `rate`, a scalar x may meet one-element arrays (result shape asserted), empty formulas must be rejected by every route. Formulas are loaded by Function.create, by configure() on a term that already holds another formula, and by the constructor; a share is evaluated under non-default atol / rtol; each is re-evaluated after the engine variable object behind a name is replaced.",
     "C18": " Tables of just over 4096 rows and input variables on a descending scale are included. The exporter object may be created before the decimals context, datasets also go through the file entry point, a rule text may be edited before exporting without reloading, and tables of more than 1024 rows over a lock-previous output with non-firing regions are planted.",
     "C19": " A term-less input variable referenced through `any` may be wired in. Rule blocks may share a name or be unnamed (one error message per needy block is required); a ready base engine that fails to process is a violation (no masking precondition).",
-    "C20": " Context objects may be created before they are entered (with assignments in between), and programs also run on a second fl.Settings instance while the library-wide object must stay untouched.",
+    "C20": " Context objects may be created before they are entered (with assignments in between), and programs also run on a second fl.Settings instance while the library-wide object must stay untouched. Contexts are left normally, by an Exception, by a BaseException that is not an Exception, or by GeneratorExit, and context objects are also used as function decorators whose calls nest (the same object entered while entered).",
 }
 for _k, _v in EXTRA.items():
     if _k in CHECKS:
